@@ -32,7 +32,11 @@ pub async fn worker(
 	events: priority::Receiver<Event, Priority>,
 ) -> Result<(), CriticalError> {
 	let mut jobtasks = LateJoinSet::default();
+	#[cfg_attr(watchexec_verif, allow(unused_mut))]
 	let mut jobs = HashMap::<Id, Job>::new();
+	// verification seam: if this future is dropped in mid-run, release the handles in creation order
+	#[cfg(watchexec_verif)]
+	let mut jobs = crate::verif::OrderedJobs(jobs);
 
 	while let Some(mut set) = throttle_collect(
 		config.clone(),
